@@ -797,6 +797,10 @@ func (d *partialArray) current() *lazyNode {
 
 func (d *partialArray) remove(key string, options *ApplyOptions) error {
 	if d == nil {
+		// The document is null: nothing is in it.
+		if options.AllowMissingPathOnRemove {
+			return nil
+		}
 		return ErrExpectedArray
 	}
 
